@@ -9,15 +9,23 @@ import time
 import traceback
 
 
+MISSING = []
+
+
 def wrap_untraced(specs):
     from .xh import untraced_if_concrete
     for modname, attr in specs:
-        mod = importlib.import_module(modname)
-        parts = attr.split('.')
-        owner = mod
-        for p in parts[:-1]:
-            owner = getattr(owner, p)
-        raw = owner.__dict__[parts[-1]] if hasattr(owner, '__dict__') and parts[-1] in vars(owner) else getattr(owner, parts[-1])
+        try:
+            mod = importlib.import_module(modname)
+            parts = attr.split('.')
+            owner = mod
+            for p in parts[:-1]:
+                owner = getattr(owner, p)
+            raw = owner.__dict__[parts[-1]] if hasattr(owner, '__dict__') and parts[-1] in vars(owner) else getattr(owner, parts[-1])
+        except (ImportError, AttributeError, KeyError):
+            # selective untracing is a speed-up only: a function that was renamed or moved by a refactoring simply stays traced
+            MISSING.append(f'{modname}:{attr}')
+            continue
         if isinstance(raw, classmethod):
             f = raw.__func__
             if not getattr(f, '__wrapped_by_verif__', False):
@@ -59,12 +67,23 @@ def main():
             r = xh.explore(ob.fn, budget_s=(20.0 if twin else budget), per_path_s=ob.per_path_s,
                            shard=(k, n), shard_of=ob.shard_of, twin=twin, seed=ctx.SEED, native_body=ob.native_body)
             res.update(r)
+            if MISSING:
+                res['untrace_missing'] = list(MISSING)
         else:
             import inspect
-            if len(inspect.signature(ob.run).parameters) >= 3:
-                res.update(ob.run(tier, k, n))
-            else:
-                res.update(ob.run(tier))
+            try:
+                if len(inspect.signature(ob.run).parameters) >= 3:
+                    res.update(ob.run(tier, k, n))
+                else:
+                    res.update(ob.run(tier))
+            except AttributeError as e:
+                if ob.engine == 'E2':
+                    # the kernel the lemma translates was renamed / moved: the lemma is inconclusive on this tree
+                    # (never a pass, never an alarm); the E1 obligations of the property still decide their bounds
+                    res.update({'queries': 0, 'unsat': 0, 'sat': 0, 'unknown': 1, 'decided': False, 'cex': [], 'functions': [],
+                                'notes': 'kernel not found in the current source: ' + str(e)[:200]})
+                else:
+                    raise
         res['ok'] = True
     except BaseException as e:
         res['ok'] = False
